@@ -127,5 +127,13 @@ func init() {
 			TokenStandard: types.ZnnTokenStandard, Amount: big.NewInt(0),
 			Data: definition.ABIToken.PackMethodPanic(definition.UpdateTokenMethodName, zts, Users[o.A].Address, o.B&1 != 0, o.B&2 != 0)})
 	}
+	// CancelGenesisFuse: user A (0 or 1) cancels the fusion it made for itself in the mock genesis (the two genesis
+	// fusions with non-zero ids; expiration height 0, so they can be cancelled at once). Afterwards A has no fused plasma.
+	Extra["CancelGenesisFuse"] = func(n *vnode.Node, o Op) string {
+		ids := []string{"117613e734b6cb0fd7b7583f5b0e863a3f0c856cd32fa36f1b60b464d068c5a6", "3d3179e499f839b47c60216b57f79e41264d408e2f21aa6f5462f25d5e094924"}
+		return submit(n, &nom.AccountBlock{BlockType: nom.BlockTypeUserSend, Address: Users[o.A].Address, ToAddress: types.PlasmaContract,
+			TokenStandard: types.ZnnTokenStandard, Amount: big.NewInt(0),
+			Data: definition.ABIPlasma.PackMethodPanic(definition.CancelFuseMethodName, types.HexToHashPanic(ids[o.A]))})
+	}
 	// SendTo: A sends amount V of token T to embedded contract S ("stake","plasma","pillar","token","sentinel","accelerator") with data of call C (from Calls) — for calls with foreign tokens
 }
